@@ -149,8 +149,10 @@ fn case(r: &mut Rng, racy: bool, res: &mut CaseResult) {
                 log.push(format!("ch{} drop return listener", chid));
             }
             6 | 7 | 8 => {
-                // raw confirmations from the server
-                for _ in 0..r.usize(1, 5) {
+                // raw confirmations from the server; now and then a long burst, so that the
+                // listener (which is only read at the end) lags far behind the I/O thread
+                let burst = if r.chance(1, 8) { r.usize(70, 600) } else { r.usize(1, 5) };
+                for _ in 0..burst {
                     tagc += 1;
                     let tag = match r.below(5) {
                         0 => u64::MAX,
@@ -169,6 +171,8 @@ fn case(r: &mut Rng, racy: bool, res: &mut CaseResult) {
                 log.push(format!("ch{} confirms", chid));
             }
             9 | 10 => {
+              let burst = if r.chance(1, 8) { r.usize(70, 200) } else { 1 };
+              for _ in 0..burst {
                 // returned message
                 tagc += 1;
                 let blen = *r.pick(&[0usize, 1, 100, 5000]);
@@ -178,7 +182,7 @@ fn case(r: &mut Rng, racy: bool, res: &mut CaseResult) {
                     redelivered: false,
                     delivery_tag: 0,
                     props: wire::rand_props(r),
-                    body: r.bytes(blen),
+                    body: r.bytes(if burst > 1 { blen.min(100) } else { blen }),
                     message_count: 0,
                 };
                 let code = r.next() as u16;
@@ -188,7 +192,8 @@ fn case(r: &mut Rng, racy: bool, res: &mut CaseResult) {
                     chans[a].return_epochs.last_mut().unwrap().push((code, m.routing_key.clone(), m.body.clone()));
                 }
                 res.obs("returns_sent", 1);
-                log.push(format!("ch{} return", chid));
+              }
+                log.push(format!("ch{} return x{}", chid, burst));
             }
             11 => {
                 // publish in confirm mode: the ack it causes must reach the current listener
@@ -216,6 +221,8 @@ fn case(r: &mut Rng, racy: bool, res: &mut CaseResult) {
                 log.push(format!("ch{} publish (confirm mode)", chid));
             }
             12 | 13 => {
+              let burst = if r.chance(1, 8) { r.usize(70, 300) } else { 1 };
+              for _ in 0..burst {
                 // blocked / unblocked notice
                 let note = if r.bool() { Some(wire::rand_shortstr(r)) } else { None };
                 h.inject(match &note {
@@ -227,7 +234,8 @@ fn case(r: &mut Rng, racy: bool, res: &mut CaseResult) {
                     blocked_epochs.last_mut().unwrap().push(note);
                 }
                 res.obs("blocked_notices_sent", 1);
-                log.push("blocked notice".into());
+              }
+                log.push(format!("blocked notice x{}", burst));
             }
             14 => {
                 // (re)register the blocked listener
